@@ -568,6 +568,15 @@ func c44Session(r *Rng, sid int, class string) Case {
 		} else {
 			stuckSeen = false
 		}
+		if time.Since(waitStart) < 1200*time.Millisecond {
+			// on a quiet machine delivery is a matter of a few hundred ms: look again before
+			// spending CPU on reference compiles
+			select {
+			case <-log.notify:
+			case <-time.After(25 * time.Millisecond):
+			}
+			continue
+		}
 		if d := c44RefCompile(dir, version); d > refMax {
 			refMax = d
 		}
